@@ -1,2 +1,3 @@
 proof fn vx_canary_axioms_c() ensures false { broadcast use group_ring, ax_scalar_bytes_len; }
 proof fn vx_canary_accept(b: Seq<u8>) requires accept_spec(b) ensures false {}
+proof fn vx_canary_req_to_bytes(p: RangeProof<P>) requires (p.li@.len() + p.ri@.len() + 5 + p.d1@.len()) * 32 + 1 <= usize::MAX ensures false {}
